@@ -41,7 +41,18 @@ const DIRECTIVES: &[(&str, &str)] = &[
 ];
 
 fn make_stmt(r: &mut Rng, id: usize, allow_paren: bool) -> St {
-    let k = r.below(if allow_paren { 12 } else { 10 });
+    let k = match r.below(if allow_paren { 16 } else { 14 }) {
+        // two shapes whose right-hand side loses redundant parentheses when formatted (the semicolon decision must not
+        // depend on whether it looks at the statement before or after formatting), and two that end in a call whose
+        // last argument is a function / an empty table (the last token is `)`, not `end` / `}`)
+        10 => 100,
+        11 => 101,
+        12 => 102,
+        13 => 103,
+        14 => 10,
+        15 => 11,
+        k => k,
+    };
     let (kind, raw, fmt_first, starts_paren): (&'static str, String, String, bool) = match k {
         0 | 1 => ("localAssignment", format!("local   v{}  =  {{  1,2  }}", id), format!("local v{} = {{ 1, 2 }}", id), false),
         2 => ("assignment", format!("v{}   =  f{}", id, id), format!("v{} = f{}", id, id), false),
@@ -51,6 +62,13 @@ fn make_stmt(r: &mut Rng, id: usize, allow_paren: bool) -> St {
         7 => ("other", format!("if   c{}   then   g{}(  )   end", id, id), format!("if c{} then", id), false),
         8 => ("other", format!("while   c{}   do   g{}(  )   end", id, id), format!("while c{} do", id), false),
         9 => ("other", format!("function   h{}(  a,b  )   return   a   end", id), format!("function h{}(a, b)", id), false),
+        100 => {
+            let lit = ["1", "{}", "\"s\"", "nil"][r.below(4)];
+            ("localAssignment", format!("local   u{}  =  (  {}  )", id, lit), format!("local u{} = {}", id, lit), false)
+        }
+        101 => ("assignment", format!("u{}   =  ((  function() end  ))", id), format!("u{} = function() end", id), false),
+        102 => ("localAssignment", format!("local   u{}  =  f{}(  function() end  )", id, id), format!("local u{} = f{}(function() end)", id, id), false),
+        103 => ("call", format!("f{}(  1,  {{}}  )", id), format!("f{}(1, {{}})", id), false),
         10 => ("call", format!("(g{}   or   h{})(  )", id, id), format!("(g{} or h{})()", id, id), true),
         _ => ("assignment", format!("(g{}).x   =  1", id), format!("(g{}).x = 1", id), true),
     };
@@ -280,6 +298,21 @@ pub fn run(tier: &str, seed: u64) -> Sink {
         // ---------- C08: no range
         let exp = expected_ignored(&stmts);
         if let Outcome::Ok(out) = fmt(&text, c, None, false) {
+            // C06 on every generated block: a second pass changes nothing (the semicolon, blank-line and directive
+            // decisions are stable; these programs have no width-dependent layout)
+            if let Outcome::Ok(out2) = fmt(&out, c, None, false) {
+                if out2 != out {
+                    // D40 (known finding): a statement that shares its line with a preceding *ignored* statement gets its
+                    // indentation appended behind the ignored statement's own trailing blanks, once more on every pass
+                    let first_diff = out.split('\n').zip(out2.split('\n')).find(|(a, b)| a != b);
+                    let after_ignored = match first_diff {
+                        Some((a, _)) => stmts.iter().zip(exp.iter()).any(|(s, e)| *e && a.trim_start().starts_with(&s.raw)),
+                        None => false,
+                    };
+                    let sig = if after_ignored { "block:not-idempotent:statement-after-ignored-on-same-line" } else { "block:not-idempotent" };
+                    sink.v("C06", sig, json!({"input": text, "config": cfg_to_string(&c), "output": out, "second_pass": out2}));
+                }
+            }
             let mut obs = Vec::new();
             let mut cursor = 0usize;
             for (k, s) in stmts.iter().enumerate() {
